@@ -15,8 +15,9 @@ from ..core import Result, split
 
 LEVEL = "fault_enumeration"
 RULE = ("exhaustive product: old in {absent, present, active} x new in {absent, present, "
-        "active} x other scripts in {none, one, one active} x old==new, x 6 script bodies "
-        "(LF, CRLF, no final newline, protocol look-alike lines, non-ASCII, empty) x fault "
+        "active} x other scripts in {none, one, one active} x old==new, x 7 script bodies "
+        "(LF, CRLF, no final newline, protocol look-alike lines, non-ASCII, empty, Unicode "
+        "line/paragraph separators and VT/FF/FS inside a line) x fault "
         "plan: none, or one of LISTSCRIPTS/GETSCRIPT/PUTSCRIPT/SETACTIVE/DELETESCRIPT answered "
         "NO / BYE / not at all / connection closed (thorough: all pairs of faults and random "
         "reply encodings). Non-trivial = a fault was injected or a name collision exists; "
@@ -32,7 +33,8 @@ FLOORS = {"quick": {"cases": 2500, "faulted-cases": 2000, "true-results": 100},
 SHARD_TIMEOUT = {"quick": 600, "thorough": 3000}
 
 BODIES = [b"keep;\n", b"keep;\r\nstop;\r\n", b"discard;", b'OK "x"\r\nNO\r\n{5}\r\nkeep;\r\n',
-          "# été €\r\nkeep;\r\n".encode(), b""]
+          "# été €\r\nkeep;\r\n".encode(), b"",
+          "# ff\x0c vt\x0b fs\x1c nel\x85 ls\u2028 ps\u2029 end\r\nkeep;\r\n".encode()]
 OTHER_BODY = b"# other\r\nstop;\r\n"
 NEW_BODY = b"# pre-existing target\r\ndiscard;\r\n"
 VERBS = ["LISTSCRIPTS", "GETSCRIPT", "PUTSCRIPT", "SETACTIVE", "DELETESCRIPT"]
